@@ -392,6 +392,11 @@ pub fn cfg_list(full: bool) -> Vec<PairCfg> {
         c.client.keep_alive_ms = Some(1000);
         c.server.keep_alive_ms = Some(1000);
     }));
+    // a rate-capped BBR sender on a path whose bandwidth-delay product is below one datagram
+    v.push(mk("bbr+pacing60k", &|c| {
+        c.client.controller = Ctl::Bbr;
+        c.client.pacing_cap = Some(60_000);
+    }));
     // streams served one after the other instead of round-robin
     v.push(mk("unfair", &|c| {
         c.client.send_fairness = false;
